@@ -170,9 +170,9 @@ var c11Clients = []struct{ ip, loc string }{{"203.0.113.9", ""}, {"10.1.0.5", "a
 func runC11(r *report.Run) {
 	r.SetRule("generated files with names carrying 1-8 address candidates (weights 0,1,2,3,7,10,100,2^32-1; all-zero, uniform and ratio shapes; A and AAAA; untagged and location-tagged; exact and wildcard owners) and NS/MX targets with several weighted addresses, on CDB/RocksDB v1/v2. Per configuration (name, type, client location, max-answer 1..8) N identical queries are sent from 16 goroutines; every response must hold <= max distinct records of the visible declared set, exactly min(max, positive-weight candidates) of them, never a weight-0 one, with NOERROR while the name has records. For max=1 and for additional-section addresses the selection counts are tested against w_i/sum(w) with a chi-square test, alarm only below p=1e-9. non-trivial = configuration with >=2 visible candidates; distinct by configuration")
 	r.Assume("statistical part: false-alarm probability < 1e-9 per tested configuration; a single short/weight-0 response per configuration (the implementation's 2^-32 boundary draws) is re-run and only a recurrence counts")
-	nworlds := r.Pick(3, 20)
+	nworlds := r.Pick(3, 8)
 	nInv := r.Pick(150, 400)
-	nProp := r.Pick(20000, 400000)
+	nProp := r.Pick(20000, 120000)
 	for wi := 0; wi < nworlds; wi++ {
 		seed := r.Seed*3000017 + int64(wi)
 		w, names, ix, servers, err := c11OpenWorld(seed)
